@@ -28,6 +28,13 @@ from hypothesis import strategies as st
 from . import cli, cli_common, filegen, files, gen, model, report_model
 from .report_model import cellv
 
+RULE_SUFFIX = (
+    " End-to-end tier (second generator, examples2 cases per shard): Hypothesis-generated multi-asset file cases (1-3 assets, "
+    "2-3 exchanges x 1-2 holders, rows shuffled in the sheet, crypto-fee acquisitions, supplied fiat columns where the check "
+    "enables them, volume tail, -m or [accounting_methods]) written to .ini/.ods, run through the real rp2_<country> console "
+    "entry point; the same predicate is applied to figures read back from rp2_full_report.ods and related to the generated "
+    "rows by (table, unique id); classes e2e_*."
+)
 E11 = 10**11
 CLASS_OF_TABLE = {"in": "InTransaction", "out": "OutTransaction", "intra": "IntraTransaction"}
 
